@@ -322,9 +322,10 @@ class MessageQueue(Entity):
 
         yield self._delivery_latency
 
-        # Create delivery event
+        # Create delivery event. The latency above advanced the clock, so
+        # stamp the event with the current time, not the pre-latency one.
         delivery_event = Event(
-            time=now,
+            time=self._clock.now if self._clock else Instant.Epoch,
             event_type="message_delivery",
             target=consumer,
             context={
